@@ -1413,6 +1413,17 @@ class Interp:
         if isinstance(v, SObj):
             if v.base_list:
                 return self.truth(st, v.fields[v.base_list])
+            # CPython: bool(obj) is obj.__bool__() if the class defines it, else len(obj) != 0 if the class defines
+            # __len__ (an empty Pile / Columns / GridFlow is falsy), else True.  Only repository definitions are
+            # followed (cross-check: tools/xc_truth.py compares with bool() of real empty / non-empty containers).
+            for dunder in ("__bool__", "__len__"):
+                cls, ref = SRC.mro_lookup(v.cls, dunder) if isinstance(v.cls, type) else (None, None)
+                if cls is None or cls is object:
+                    continue
+                if ref is None:
+                    raise Unsupported(f"truth of {v.cls.__name__}: {dunder} is not a repository function")
+                r = self.call(st, self.getattr(st, v, dunder), [])
+                return self.truth(st, r) if dunder == "__bool__" else self.truth(st, V._cmp("!=", r, 0) if isinstance(r, Sym) else r != 0)
             return True
         if isinstance(v, (SOpaque, FnVal, Method, SSlice, SExc)):
             t = getattr(v, "meta", {}).get("truth") if isinstance(v, SOpaque) else None
